@@ -289,7 +289,13 @@ impl<A: HApi> Sut for HSut<A> {
             "cap" | "rcap" => Some(dp.cap.to_string()),
             "full" | "rfull" => Some((m.len() >= dp.cap).to_string()),
             "empty" | "rempty" => Some(m.is_empty().to_string()),
-            "fill" => Some((dp.cap - m.len()).to_string()),
+            "fill" => {
+                let mut n = 0usize;
+                while n < dp.cap - m.len() && (n as i128) < op.args[1] && !m.contains(&(op.args[0] + n as i128)) {
+                    n += 1;
+                }
+                Some(n.to_string())
+            }
             "init" => {
                 exp.clear();
                 None
